@@ -22,8 +22,8 @@ ASSUMPTIONS = [
     "positions of the wrong type are C01's business and are skipped here",
 ]
 PLAN = {
-    "quick": {"shards": 8, "shard_timeout": 400, "case_timeout": 20, "grammars": 40, "agree": 150, "max_case_timeouts": 3},
-    "thorough": {"shards": 16, "shard_timeout": 1500, "case_timeout": 40, "grammars": 600, "agree": 3000, "max_case_timeouts": 20},
+    "quick": {"shards": 8, "shard_timeout": 400, "case_timeout": 20, "grammars": 120, "agree": 400, "max_case_timeouts": 6},
+    "thorough": {"shards": 16, "shard_timeout": 3600, "case_timeout": 40, "grammars": 5000, "agree": 30000, "max_case_timeouts": 80},
 }
 THRESHOLDS = {
     "quick": {"mapped:ge": 200, "mapped:sge": 200, "mapped:dsge": 200, "mapped:stack": 30, "refined_positions": 3000, "dependent_positions": 100, "agree_values": 2000, "repr:stack": 20, "repr:dsge": 50, "repr:ge": 50, "repr:sge": 50, "repr:tree": 100, "set:mh_kinds_seen": 8},
